@@ -195,7 +195,12 @@ def go_build(target="zunit", race=False):
     with Lock(".go.%s.lock" % target):
         ov = write_overlay()
         outp = os.path.join(BUILD, target + ("-race" if race else ""))
-        cmd = ["go", "build", "-tags", "verif", "-overlay", ov, "-o", outp]
+        # never let the build touch /repo's go.mod / go.sum (a harness import may promote an indirect
+        # requirement): build against private copies taken from the current tree
+        modcopy = os.path.join(BUILD, "go.%s.mod" % target)
+        shutil.copyfile(os.path.join(REPO, "go.mod"), modcopy)
+        shutil.copyfile(os.path.join(REPO, "go.sum"), modcopy[:-4] + ".sum")
+        cmd = ["go", "build", "-modfile", modcopy, "-tags", "verif", "-overlay", ov, "-o", outp]
         if race:
             cmd.append("-race")
         cmd.append("./internal/verifharness/" + target)
@@ -352,7 +357,12 @@ def load_findings(pid):
         kv = dict(re.findall(r"(\w+)=(\S+)", line))
         if kv.get("property") != pid:
             continue
-        kv["text"] = line[len("finding:"):].strip()
+        text = line[len("finding:"):].strip()
+        # drop the leading key=value tokens: what remains is the description printed after KNOWN-FINDING
+        toks = text.split(" ")
+        while toks and re.match(r"^(property|driver|monitor|tag|key)=\S+$", toks[0]):
+            toks.pop(0)
+        kv["text"] = " ".join(toks)
         res.append(kv)
     return res
 
